@@ -34,6 +34,14 @@ STRENGTH = {
  "C17-d": "nested ranging over one stored Preorder value",
  "C19-d": "a second set of poslang expression objects shared by all node types with the same expression text",
  "C20-d": "texts of up to 400 (thorough 3 000) lines with every position resolved",
+ "C01-g": "operand matrix (every primary-expression form x operator context x field-name kind after the dot) in C01, C02, C05, C06",
+ "C02-g": "qualified special forms with the form's own name as first / middle path component (`count.x(*)`, `x.CAST.y(...)`)",
+ "C05-g": "every word of every corpus file and systematic sentence back-quoted in place (tagged sub-workload `@qpkw`; a known finding for an untagged signature also covers the tagged one)",
+ "C06-g": "list widening: every bracket group of every systematic sentence and corpus file with its last element repeated 13 / 17 / 70 times (near-miss workload of C02/C04/C05/C06/C09/C10/C16/C17/C19)",
+ "C08-g": "C08 relation: a sentence accepted with a list widened by 13 elements must be accepted with it widened by 900 (systematic set, corpus, hand-written hosts with parenthesised query operands)",
+ "C09-g": "systematic truncations (after every token) and starts in the middle (before every token) of every corpus file and systematic sentence",
+ "C16-g": "C16 re-spells whatever else the parser accepts: near misses, scope probes, qualified special forms, wide hosts",
+ "C18-g": "errsites.tsv (cmd/harvest: one short input per (entry, error message shape), 69 of 73 parser message templates reached); C18 holds each result, re-parses the text at shifted positions and re-reads the held result; all error sites from 16 goroutines at once under the race detector",
  "C03-f": "every reserved / pseudo keyword after an erroneous prefix and in front of each kind of lexically malformed token, through every entry point",
  "C07-f": "long chains (257 / 4 099 / 12 000, thorough 70 001 operands) of every left-associative operator, of alternating operator pairs, of prefix operators and subscripts; the spine is checked node by node",
  "C11-f": "long homogeneous statement lists (4 096 / 20 000 copies of 56 statement shapes, 2 500 copies of every sentence of the systematic set) through one parser instance",
@@ -53,11 +61,12 @@ STRENGTH = {
 out = []
 out.append("## 11. Seeded changes and kill matrix\n")
 out.append("Every change below was written by a fresh sub-agent that saw only the text of one property and a scratch git\n"
-           "worktree of /repo (nothing from /verif), in six rounds: (a) free choice, (b) a prescribed area of the code per\n"
-           "property, (c)-(f) \"make it survive generic property-based testing\" with an increasingly detailed description of what such testing does. Each was verified with\n"
+           "worktree of /repo (nothing from /verif), in seven rounds: (a) free choice, (b) a prescribed area of the code per\n"
+           "property, (c)-(g) \"make it survive generic property-based testing\" with an increasingly detailed description of what such testing does. Each was verified with\n"
            "`tools/mutant_verify.sh` (compiles, unedited suite passes, demonstration fails with the change and passes without)\n"
            "and is kept as `seeded/<name>/{patch.diff, mutant_demo_test.go, MUTANT.md, meta.json}`. \"caught by\" lists the\n"
-           "checks whose **quick** command exits 1 on a scratch copy of /repo with the patch applied (`tools/killmatrix.sh`).\n"
+           "checks whose **quick** command exits 1 on a scratch copy of /repo with the patch applied (`tools/killmatrix.sh`);\n"
+           "rows marked (+) come from `tools/mutant_try.sh` / `tools/targets_run.sh` runs of the listed checks only (the other checks were not run against that change).\n"
            "\"strengthened\" says what was added to the machinery when the first run of the target check missed the change\n"
            "(or caught it only by luck); after that, every seeded change is caught by the check of the property it was\n"
            "written against.\n")
